@@ -12,7 +12,7 @@ def _jobs(tier):
             jobs.append(dict(sub="threads", count=100, fix=dict(k=(1, 10))))
     else:
         for i in range(16):
-            jobs.append(dict(sub="threads", count=600, fix=dict(k=(1, 10))))
+            jobs.append(dict(sub="threads", count=2000, fix=dict(k=(1, 10))))
         for k in range(11, 17):
             jobs.append(dict(sub="threads", count=40, fix=dict(k=k)))
     return jobs
